@@ -123,6 +123,13 @@ func readCtx(block []byte) (frugal.FContext, error) {
 	return protoFactory.GetProtocol(tb).ReadRequestHeader()
 }
 
+// responseReader returns a fresh FProtocol positioned on a header block, ready
+// for ReadResponseHeader.
+func responseReader(block []byte) *frugal.FProtocol {
+	tb := &thrift.TMemoryBuffer{Buffer: bytes.NewBuffer(append([]byte(nil), block...))}
+	return protoFactory.GetProtocol(tb)
+}
+
 // writeThenRead sends ctx's request headers through WriteRequestHeader and
 // receives them with ReadRequestHeader.
 func writeThenRead(ctx frugal.FContext) (frugal.FContext, error) {
